@@ -174,6 +174,11 @@ fn main() {
                 }
                 Ev::Rel { lock } => format!("Rel {}", lock),
                 Ev::Hold { lock } => format!("Hold {}", lock),
+                Ev::CallLocal { site, name } => {
+                    n_call_ev += 1;
+                    n_edges += 1;
+                    format!("Call {} [{}]%positive (* {} *)", coq_str(site), id_of_name[name.as_str()], short(name))
+                }
                 Ev::Call { site, callees } => {
                     let mut ids: Vec<usize> = callees.iter().map(|&c| callee_id(c)).collect();
                     ids.sort();
@@ -210,6 +215,9 @@ fn main() {
     // ---- report ----
     println!("srcfacts: {} files, {} functions (+{} spawned-task roots), {} acquisition sites, {} call events, {} call edges",
              idx.files.len(), idx.fns.len(), outs.len() - idx.fns.len(), n_acq, n_call_ev, n_edges);
+    // machine-readable (for bin/check evidence)
+    println!("SRCFACTS-STATS files={} functions={} task_roots={} acquisition_sites={} call_events={} call_edges={} not_linked={}",
+             idx.files.len(), idx.fns.len(), outs.len() - idx.fns.len(), n_acq, n_call_ev, n_edges, dropped.len());
     println!("locks outside C20 (reviewed list): {:?}", unclassified);
     println!("macros not parsed as expressions (no acquisition inside): {:?}", unparsed);
     for l in &log {
